@@ -212,3 +212,24 @@ Proof.
   exists xsz64, [ximg; ximg2], twin_log.
   split; [apply wf_logb_spec; vm_compute; reflexivity|]. split; vm_compute; reflexivity.
 Qed.
+
+(** the final-coverage clause with the files of [ex_nodes] (executable bytes
+    32..48): the log of [ok_log] measures 8..12, 16..20, 32..36, 48..52, so 36..48
+    is reported -- by the first run, and again after pcr0tool's merge has sorted
+    the memory of the log *)
+Lemma ok_log_files_runs :
+  snd (run_passes ok_heap ok_log [PVfc (uefi_files wimg ex_nodes); PSm; PVfc (uefi_files wimg ex_nodes)]) =
+    [RIss (Ok [mkVI 1 6 [mkRef wimg MNil [mkR 36 12]] [mkRef wimg MNil [mkR 8 4; mkR 16 4; mkR 32 4; mkR 48 4]]]);
+     RRefs (Ok [mkRef wimg MNil [mkR 8 4; mkR 16 4; mkR 32 4; mkR 48 4]]);
+     RIss (Ok [mkVI 1 6 [mkRef wimg MNil [mkR 36 12]] [mkRef wimg MNil [mkR 8 4; mkR 16 4; mkR 32 4; mkR 48 4]]])].
+Proof. vm_compute. reflexivity. Qed.
+
+(** two readings of one log that differ by an in-place sort are [sreq] *)
+Lemma ok_log_sreq :
+  Forall2 sreq (val_log ok_heap ok_log) (val_log (fst (run_passes ok_heap ok_log [PSm])) ok_log) /\
+  val_log ok_heap ok_log <> val_log (fst (run_passes ok_heap ok_log [PSm])) ok_log.
+Proof.
+  split.
+  - repeat constructor.
+  - vm_compute. discriminate.
+Qed.
